@@ -132,10 +132,9 @@ def verify_function(reg, contract, prefix="", fixed=None):
             t = argtypes.get(pn)
             if t is None:
                 raise Unsupported("contract of %s gives no type for parameter %s" % (contract.fq, pn))
-            fixlen = None
-            if t.startswith("list") and "#" in t:
-                # "list:<elem>#n": a list parameter whose length is the literal n in this case of arg_cases
-                t, fixlen = t.rsplit("#", 1)
+            from .symexec import fixed_len
+
+            fixlen = fixed_len(t)  # "list#n:<elem>": a sequence parameter of fixed arity n
             if fixed and pn in fixed:
                 from .symexec import SV
 
